@@ -31,6 +31,11 @@ CLAIMED = {
          "Generated-input search: 300k (quick) / 8M (thorough) single-table aggregate queries the columnar gate accepts; each is run with the gate on, with the gate forced off, and as a rewrite the gate rejects; results must agree, COUNT must never be NULL. A hook counter proves the fast path really produced the answer (class floor 60%).",
          "The row path is the reference (its own correctness is C07). Hook = two thread-locals in vibesql-executor behind cargo feature verif. Regions of the eight recorded columnar defects are excluded by construction in 80% of the budget.",
          "DESIGN.md §6 C03"),
+ "C04": ("exploration",
+         "configuration differential across processes: the same generated world and queries are executed in long-lived child processes that differ only in PARALLEL_THRESHOLD / RAYON_NUM_THREADS (never parallel vs every operator parallel at every size, 4 and 2 workers), each query twice per process; answers are compared across processes and across the two executions",
+         "Generated-input search: 12k worlds (about 23k queries x 3 configurations x 2 executions) quick / 400k thorough; tables of up to 10 or up to 60 rows, queries from the typed grammar (joins incl. hash-join shapes, WHERE, subqueries, DISTINCT, aggregates, GROUP BY/HAVING, set operations, ORDER BY over all output columns with LIMIT/OFFSET).",
+         "rayon's thread interleavings are sampled, not enumerated (one schedule per configuration and case); DOUBLE results compared with tolerance 1e-9; a child that dies or hangs makes the run inconclusive (exit 2), not a violation.",
+         "DESIGN.md §6 C04"),
  "C05": ("exploration",
          "metamorphic + model-based testing: rewrite families (comma-join permutations, CROSS JOIN+WHERE, INNER JOIN chains, derived-table wrapping, IN / EXISTS / JOIN DISTINCT, NOT EXISTS / LEFT JOIN IS NULL / NOT IN) each compared with a definitional nested-loop evaluation computed by the harness",
          "Generated-input search: 250k families quick / 6M thorough over 2-3 tables with NULL and duplicate keys and empty sides, with and without an index on the inner key; every member must return the multiset of the ~60-line definitional model (NOT IN against its own 3VL definition).",
